@@ -402,8 +402,7 @@ func c01Mini(r *Run) {
 		files := fstest.MapFS{}
 		var compCoq []string
 		for ci := nComp - 1; ci >= 0; ci-- {
-			// a component file begins with plain text: a leading <template> would be taken for the file's root wrapper
-			comps[ci] = append([]*miniT{{kind: "text", segs: []miniSeg{{lit: "C", x: -1}}}}, miniGen(rr, 2, compVars, listVars, &next, miniCtx{incFrom: ci + 1, nComp: nComp, slot: true})...)
+			comps[ci] = miniGen(rr, 2, compVars, listVars, &next, miniCtx{incFrom: ci + 1, nComp: nComp, slot: true})
 			files[fmt.Sprintf("c%d.vuego", ci)] = &fstest.MapFile{Data: []byte(miniSrc(comps[ci]))}
 		}
 		for ci := 0; ci < nComp; ci++ {
